@@ -178,6 +178,28 @@ def run(ctx):
                                                         "order_dependent_failure": failed})
             else:
                 ctx.trace_ok(len(perms))
+    # two strongly coupled spheres and a very weak one, with the solver's default options: wherever the weak member is
+    # listed, the iteration has to go on until the strong pair has converged
+    weak = [Sphere(n=2.0, r=0.5, center=(3.0, 3.2, 8.0)), Sphere(n=2.0, r=0.5, center=(3.1, 3.05, 9.05)),
+            Sphere(n=1.45, r=0.01, center=(3.3, 4.4, 8.6))]
+    wpts = detector_points(x=np.array([0.5, 2.5, 4.0, 5.5]), y=np.array([1.0, 3.0, 5.5, 2.0]), z=0.0)
+    for meth in (1, 0):
+        try:
+            with warnings.catch_warnings():
+                warnings.simplefilter("ignore")
+                fields = {perm: calc_field(wpts, Spheres([weak[i] for i in perm], warn=False), theory=Multisphere(meth=meth), **OPT).values
+                          for perm in itertools.permutations(range(3))}
+        except Exception as e:
+            ctx.violation("permutation/weak_member/exception", {"meth": meth, "exc": repr(e)[:200]})
+            continue
+        ref_w = fields[(0, 1, 2)]
+        for perm, f in fields.items():
+            ctx.case(("perm_weak_member", meth, perm), nontrivial=perm != (0, 1, 2))
+            d = quant.reldiff(f, ref_w)
+            if d > 1e-3:
+                ctx.violation("permutation/weak_member", {"meth": meth, "order": perm, "rel_diff": d})
+            else:
+                ctx.trace_ok()
     # ---------------- rotation covariance about the optical axis, one-sphere cluster ---------------------
     for kind, rs in (("equal", [0.4, 0.4, 0.4]), ("mixed_pair", [0.6, 0.25])):
         for meth in (1, 0):
